@@ -491,10 +491,22 @@ func c20HandlerPanic(run *vf.Run) {
 
 // c20Audit: failure of audit writing must surface as a log entry (ProcessLogging returns nothing).
 func c20Audit(run *vf.Run) {
-	for _, typ := range []string{"Serial"} {
+	scratch, _ := os.MkdirTemp("", "verif-c20audit-")
+	defer os.RemoveAll(scratch)
+	notADir := filepath.Join(scratch, "file")
+	_ = os.WriteFile(notADir, []byte("x"), 0o644)
+	okStore := filepath.Join(scratch, "store")
+	_ = os.MkdirAll(okStore, 0o755)
+	for _, typ := range []string{"Serial", "Concurrent-index", "Concurrent-store"} {
 		var logbuf bytes.Buffer
 		logger := debuglog.Default().WithOutput(&logbuf).WithLevel(debuglog.LevelError)
 		text := fmt.Sprintf("SecRuleEngine On\nSecAuditEngine On\nSecAuditLogParts ABCFHZ\nSecAuditLogType %s\nSecAuditLogFormat json\nSecAuditLog /dev/full\nSecAction \"id:1,phase:1,pass,log,auditlog\"\n", typ)
+		switch typ {
+		case "Concurrent-index": // the record file can be written, the index line cannot (ENOSPC)
+			text = fmt.Sprintf("SecRuleEngine On\nSecAuditEngine On\nSecAuditLogParts ABCFHZ\nSecAuditLogType Concurrent\nSecAuditLogFormat json\nSecAuditLog /dev/full\nSecAuditLogStorageDir %s\nSecAction \"id:1,phase:1,pass,log,auditlog\"\n", okStore)
+		case "Concurrent-store": // the storage directory cannot be created (a regular file is in the way)
+			text = fmt.Sprintf("SecRuleEngine On\nSecAuditEngine On\nSecAuditLogParts ABCFHZ\nSecAuditLogType Concurrent\nSecAuditLogFormat json\nSecAuditLog %s\nSecAuditLogStorageDir %s\nSecAction \"id:1,phase:1,pass,log,auditlog\"\n", filepath.Join(scratch, "index.log"), filepath.Join(notADir, "sub"))
+		}
 		w, err := coraza.NewWAF(coraza.NewWAFConfig().WithDirectives(text).WithDebugLogger(logger))
 		if err != nil {
 			run.Extra["audit_dev_full"] = "configuration rejected: " + err.Error()
